@@ -20,7 +20,7 @@ CORR_HEADER = ("From Coq Require Import ZArith QArith List String.\n"
                "Open Scope string_scope.\nOpen Scope Q_scope.\n")
 CHECK_FN = "check_sorted"
 SHARD = 20
-RULE = ("[wave 6: in-simulator infrastructure taken from the EVSE objects / the harness' own constraint record and compared with Interface.infrastructure_info() at every call; sessions whose own minimum rate exceeds the remaining demand] [checklist families: object reuse, interleaved instances, caller-owned data frozen/vandalised, odd ids and dtypes, mid-run JSON round trip, constraint mutations between calls, odd periods/increments, interrupted+resumed runs, second process with another hash seed, direct entry points] unit level: random InfrastructureInfo (1-6 stations, 0-6 three-phase mixed-sign constraints placed where they bind, "
+RULE = ("[wave 7: finite-rate level tables without 0 whose lowest level exceeds the head-room left by higher-priority grants; direct discrete_max_feasible_rate calls on such lists] [wave 6: in-simulator infrastructure taken from the EVSE objects / the harness' own constraint record and compared with Interface.infrastructure_info() at every call; sessions whose own minimum rate exceeds the remaining demand] [checklist families: object reuse, interleaved instances, caller-owned data frozen/vandalised, odd ids and dtypes, mid-run JSON round trip, constraint mutations between calls, odd periods/increments, interrupted+resumed runs, second process with another hash seed, direct entry points] unit level: random InfrastructureInfo (1-6 stations, 0-6 three-phase mixed-sign constraints placed where they bind, "
         "continuous / finite-rate EVSEs, unequal voltages) x random active sessions with session_id != station_id "
         "(plenty left / between levels / nearly finished / finished) x 5 sort orders x {greedy, round robin} x "
         "{estimator on/off with random SimpleRampdown state} x {uninterrupted on/off} x increments {0.1,0.5,1}, cycling "
